@@ -177,9 +177,12 @@ func (ex *Exec) theoryCall(fr *Frame, st *State, key string, fn *ssa.Function, a
 			return true
 		}
 		return false
-	case strings.HasPrefix(key, "(k8s.io/api/core/v1.ResourceList)."):
+	case strings.HasPrefix(key, "(k8s.io/api/core/v1.ResourceList).") || strings.HasPrefix(key, "(*k8s.io/api/core/v1.ResourceList)."):
 		m := key[strings.LastIndex(key, ".")+1:]
 		rl := args[0]
+		if derefType(rl.T) != nil {
+			rl = ex.load(st, ex.derefLoc(st, rl, pos))
+		}
 		var name *Term
 		switch m {
 		case "Cpu":
